@@ -1,0 +1,35 @@
+//go:build verif
+
+package streams
+
+import (
+	internaltypes "lunar/engine/streams/internal-types"
+	publictypes "lunar/engine/streams/public-types"
+)
+
+// VerifSelectFlows reports what the stream's own filter tree (built by Initialize, flows added in Go map
+// order) selects for an API stream, without executing anything: flow names per group and `found`.
+// Used by the C03 verification harness (response events and system flows are not observable through
+// GetFlowInvocations).
+func (s *Stream) VerifSelectFlows(
+	apiStream publictypes.APIStreamI,
+) (user []string, systemStart []string, systemEnd []string, found bool) {
+	res, found := s.filterTree.GetFlow(apiStream)
+	if res == nil {
+		return nil, nil, nil, found
+	}
+	names := func(flows []internaltypes.FlowI, ok bool) []string {
+		if !ok {
+			return nil
+		}
+		out := make([]string, 0, len(flows))
+		for _, f := range flows {
+			out = append(out, f.GetName())
+		}
+		return out
+	}
+	user = names(res.GetUserFlow())
+	systemStart = names(res.GetSystemFlowStart())
+	systemEnd = names(res.GetSystemFlowEnd())
+	return user, systemStart, systemEnd, found
+}
